@@ -1,5 +1,5 @@
 """C08 — numeric operators are exact or fail (DESIGN.md §3 C08)."""
-import json, struct, collections, sys
+import json, struct, collections, sys, re
 if hasattr(sys, "set_int_max_str_digits"):
     sys.set_int_max_str_digits(0)
 from fractions import Fraction
@@ -9,9 +9,9 @@ READY = True
 META = {
     "technique": "Lean 4 proof (model of ops::coerce/add/sub/mul/int_div/rem/pow/neg/int_as_value over the four integer representations: exact-or-error, total on the signed 128-bit range, width independent, Euclid law) + differential run of the model against the real engine + exact-integer/rational oracle",
     "category": "proof",
-    "text": "The full statement is FALSE on the pinned code at exactly one operand, proved as `C08_counterexample : ¬ C08_full` (unary minus of 2^127 stored as u128 returns +2^127; kept as a recorded known finding because an existing snapshot pins it); everything else is proved as `C08_holds_partial` with that operand as an explicit hypothesis of the unary-minus exactness clause only. Kernel-checked theorems about the Lean model of minijinja's integer arithmetic (every representation U64/I64/U128/I128, every well-formed payload): a successful + - * // % ** or unary minus returns the mathematically exact integer, the operation succeeds whenever operands and result fit the signed 128-bit range (divisor non-zero, exponent in [0,2^32)), the outcome depends only on the mathematical operands and not on the stored width, and // and % satisfy q*b + r = a with 0 <= r < |b|; the float remainder algorithm (fmod plus |b| when negative) is proved to be the Euclidean remainder on scaled integers. Integer literals: the Lean model of Tokenizer::eat_number (radix prefix, scanning state machine, `_` separators, u64 fast path / u128 fallback, float detection) is proved to read every well-formed spelling - either prefix case, any separators not at the end, any leading zeros, canonical digits of v in radix 2/8/10/16 - as the token for v, stored as the well-formed representation of v, and to reject values >= 2^128 (lit_scan_radix, lit_scan_dec, lit_value, lit_value_dec, lit_repr, lit_too_large). The model is tied to /repo by running ~2*10^5 (quick) operand pairs from the boundary zoo and boundary-biased random pairs, written as literals and as i64/u64/i128/u128/f64 context values, through Expression::eval and template rendering and through the compiled Lean model; an independent Python oracle (unbounded ints, Fractions) adjudicates exactness, totality, width independence, the Euclid law for floats and exact int/float comparison.",
+    "text": "The full statement is FALSE on the pinned code at exactly one operand, proved as `C08_counterexample : ¬ C08_full` (unary minus of 2^127 stored as u128 returns +2^127; kept as a recorded known finding because an existing snapshot pins it); everything else is proved as `C08_holds_partial` with that operand as an explicit hypothesis of the unary-minus exactness clause only. Kernel-checked theorems about the Lean model of minijinja's integer arithmetic (every representation U64/I64/U128/I128, every well-formed payload): a successful + - * // % ** or unary minus returns the mathematically exact integer, the operation succeeds whenever operands and result fit the signed 128-bit range (divisor non-zero, exponent in [0,2^32)), the outcome depends only on the mathematical operands and not on the stored width, and // and % satisfy q*b + r = a with 0 <= r < |b|; the float remainder algorithm (fmod plus |b| when negative) is proved to be the Euclidean remainder on scaled integers. Integer literals: the Lean model of Tokenizer::eat_number (radix prefix, scanning state machine, `_` separators, u64 fast path / u128 fallback, float detection) is proved to read every well-formed spelling - either prefix case, any separators not at the end, any leading zeros, canonical digits of v in radix 2/8/10/16 - as the token for v, stored as the well-formed representation of v, and to reject values >= 2^128 (lit_scan_radix, lit_scan_dec, lit_value, lit_value_dec, lit_repr, lit_too_large). The model is tied to /repo by running ~2*10^5 (quick) operand pairs from the boundary zoo and boundary-biased random pairs, written as literals and as i64/u64/i128/u128/f64 context values, through Expression::eval and template rendering and through the compiled Lean model; an independent Python oracle (unbounded ints, Fractions) adjudicates exactness, totality, width/spelling independence, the Euclid law for floats and exact int/float comparison. Round 3: finite doubles are modelled in Lean as bit patterns with exact dyadic values (no Float): int/float comparison is proved exact for all i64/u64/i128/u128 x non-NaN doubles (cmp_ops_exact, on C07's comparison model), int->float conversion exact below 2^53 and within half an ulp with ties to even above, float unary minus/abs exact, float % and // produce the Euclidean remainder/quotient of the exact values whenever those are representable (float_rem_exact, float_div_exact), int-of-float exact or error; abs/int/round/sum on integers exact or error; every case is also evaluated with constant folding defeated (run-time operator) and a quarter of them through 11 other features/entry points (set, macro, namespace augmented assignment, loop variable, render_block, custom delimiters, autoescape, `~`, strict undefined, loader template, State::call_macro), all of which must print the same value.",
     "design_ref": "DESIGN.md §3 C08",
-    "level_note": "Trusted: Lean kernel; hand transcription of ops.rs (coerce, int_as_value, add, sub, mul, int_div, rem, pow, neg) and of i128::try_from(Value) into MJ/Model/Num.lean, validated differentially on every generated integer case; Rust's i128::checked_* are modelled by their documented contract (exact result or None). The lexer model is tied by running the real tokenizer on ~10^4 (quick) spellings, edge texts and random texts (token kind, value and consumed length compared). Upper-case hex digits, float literal values, bool operands, the abs/int/float/round/sum filters and the odd/even/divisibleby tests are covered by the oracle streams only (no Lean model). Float arithmetic (IEEE division/rounding in f64::div_euclid, the rounded addition in rem_euclid, `as f64` casts) and int/float comparison are not modelled in Lean: they are covered by the exact rational oracle only.",
+    "level_note": "Trusted: Lean kernel; hand transcription of ops.rs (coerce, int_as_value, add, sub, mul, int_div, rem, pow, neg, as_f64, f64_div_euclid), of i128::try_from(Value), of filters abs/int/round/sum and of Tokenizer::eat_number into MJ/Model/{Num,NumF,NumLex}.lean (comparisons: C07's MJ/Model/Cmp.lean), validated differentially on every generated case they cover (integers, comparisons, float // and %, float unary minus/abs, int->float, int-of-float, literals); source facts the model duplicates (neg's special constant, the checked_* method of each operator, the lexer's prefix table and parsing calls) are regenerated from /repo and re-proved equal on every run. Rust's i128::checked_* are modelled by their contract; IEEE operations by exact-result-then-round-to-nearest-even (encodeRat). Floats are proved exact only under explicit representability hypotheses (the rounding itself is total but only validated); float literal values, f64::from_str, powf, float + - *, round(precision), min/max, range, batch, `~`, filesizeformat/truncate/indent arguments, bool operands, odd/even/divisibleby and string parsing in int/float are oracle/consistency streams without a Lean model.",
 }
 
 P63, P64, P127, P128 = 1 << 63, 1 << 64, 1 << 127, 1 << 128
@@ -64,8 +64,12 @@ class BadCase(Exception):
 def parse_operand(tok):
     """-> (kind 'i'|'f', value, form)"""
     form, val = tok.split(":", 1)
-    if form in ("flit", "f64"):
+    if form in ("flit", "f64", "sf64"):
         return ("f", f_of_bits(val), form)
+    if form in ("f32", "sf32"):
+        return ("f", struct.unpack(">f", struct.pack(">I", int(val, 16)))[0], form)
+    if form == "str":
+        return ("s", bytes.fromhex(val).decode("utf-8"), form)
     if form == "fsrc":
         text, bits = val.rsplit("=", 1)
         v = f_of_bits(bits)
@@ -153,7 +157,7 @@ def check_int(r, case, op, A, B, impl):
     defined, exact = int_exact(op, a, b)
     forms = A[2] + ("," + B[2] if B else "")
     reg = region(a) + ("," + region(b) if B else "")
-    res, _, rend = impl.partition("|render=")
+    res, rend = split_impl(impl)[0], split_impl(impl)[1].get("render", "")
     has_bool = "bool" in forms.split(",")
     if rend:
         r.oracle_failure(case, f"template prints {rend!r} but Expression::eval gives {res}", f"int:{op}:render:{reg}")
@@ -190,7 +194,7 @@ def as_fraction(X):
 
 
 def check_float_euclid(r, case, op, A, B, impl):
-    res, _, rend = impl.partition("|render=")
+    res, rend = split_impl(impl)[0], split_impl(impl)[1].get("render", "")
     kinds = A[0] + B[0]
     if rend:
         r.oracle_failure(case, f"template prints {rend!r} but Expression::eval gives {res}", f"float:{op}:render")
@@ -238,7 +242,7 @@ def cmp_exact(op, x, y):
 
 
 def check_cmp(r, case, op, A, B, impl):
-    res, _, rend = impl.partition("|render=")
+    res, rend = split_impl(impl)[0], split_impl(impl)[1].get("render", "")
     kinds = A[0] + B[0]
     if rend:
         r.oracle_failure(case, f"template prints {rend!r} but Expression::eval gives {res}", f"cmp:{op}:render")
@@ -251,6 +255,193 @@ def check_cmp(r, case, op, A, B, impl):
 
 
 OPS_FILTER = ("f_abs", "f_int", "f_float", "f_round", "f_sum", "t_odd", "t_even", "t_divby")
+OPS_MORE = ("f_min", "f_max", "f_concat", "f_range", "f_rangelen", "f_rangestep", "f_batchlen", "f_fsize",
+            "f_trunc", "f_indent", "f_strint", "f_strfloat", "f_roundp")
+I64_MIN, I64_MAX = -(1 << 63), (1 << 63) - 1
+
+
+def split_impl(impl):
+    """`res|render=..|runtime=..|embedK=..` -> (res, {tag: value})"""
+    parts = impl.split("|")
+    res, extra = parts[0], {}
+    for p in parts[1:]:
+        tag, _, v = p.partition("=")
+        if tag == "render" or tag == "runtime" or tag.startswith("embed"):
+            extra[tag] = v
+        else:                      # a `|` inside a value
+            res = res if not extra else res
+            last = list(extra)[-1] if extra else None
+            if last is None:
+                res += "|" + p
+            else:
+                extra[last] += "|" + p
+    return res, extra
+
+
+def check_consistency(r, case, op, impl):
+    """the same expression must give the same answer when folded at compile time, evaluated at run
+    time, printed by a template, and reached through other features / entry points"""
+    res, extra = split_impl(impl)
+    for tag, v in extra.items():
+        if tag == "render":
+            continue               # reported by the stream's own check
+        if tag == "runtime":
+            r.oracle_failure(case, f"constant folding gives {res}, the run-time operator gives {v}", "consistency:folded-vs-runtime")
+        else:
+            r.oracle_failure(case, f"Expression::eval displays {res}, embedding {tag[5:]} prints {v!r}", f"consistency:embedding:{tag[5:]}")
+    return res
+
+
+def as_exact(res):
+    """engine result -> exact rational, or None"""
+    if res.startswith("i:"):
+        return Fraction(int(res[2:]))
+    if res.startswith("f:"):
+        v = f_of_bits(res[2:])
+        return Fraction(v) if v == v and v not in (float("inf"), float("-inf")) else None
+    return None
+
+
+def isize_ok(x):
+    return I64_MIN <= x <= I64_MAX
+
+
+def check_more(r, case, op, A, B, impl):
+    res = split_impl(impl)[0]
+    name = op[2:]
+    if res == "panic":
+        r.oracle_failure(case, "panic", f"func:{name}:panic")
+        return "panic"
+    if res == "err:SyntaxError":
+        r.oracle_failure(case, "a well-formed number literal is rejected by the lexer/parser", "literal:syntax-error")
+        return "err"
+
+    def text():
+        return bytes.fromhex(res[2:]).decode("utf-8") if res.startswith("s:") else None
+
+    if op in ("f_min", "f_max"):
+        vals = [Fraction(X[1]) for X in (A, B)]
+        want = min(vals) if op == "f_min" else max(vals)
+        got = as_exact(res)
+        if got is None or got != want:
+            r.oracle_failure(case, f"returned {res}, the exact {'minimum' if op == 'f_min' else 'maximum'} is {want}", f"func:{name}:wrong-value")
+            return "bad"
+        return "exact"
+    if op == "f_concat":
+        if res.startswith("err:"):
+            return "err"
+        want = str(A[1]) + str(B[1])
+        if text() != want:
+            r.oracle_failure(case, f"returned {text()!r}, the decimal texts concatenated are {want!r}", "func:concat:wrong-value")
+            return "bad"
+        return "exact"
+    if op in ("f_range", "f_rangelen", "f_rangestep"):
+        if op == "f_rangestep":
+            lo, hi, step = 0, A[1], B[1]
+        else:
+            lo, hi, step = A[1], B[1], 1
+        ok_args = isize_ok(lo) and isize_ok(hi) and isize_ok(step) and step != 0
+        n = None
+        if ok_args:                # length of range(lo, hi, step) without materialising it
+            n = max(0, -((lo - hi) // step)) if step > 0 else max(0, -((hi - lo) // -step))
+        if res.startswith("err:"):
+            if ok_args and n <= 100000:
+                r.oracle_failure(case, f"error {res} for a range of {n} items with arguments that fit isize", f"func:{name}:spurious-error")
+            return "err"
+        if not ok_args:
+            r.oracle_failure(case, f"returned {res} for arguments outside isize / a zero step", f"func:{name}:missing-error")
+            return "bad"
+        if op == "f_rangelen":
+            good = res == "i:%d" % n
+        else:
+            good = n <= 100000 and text() == ",".join(str(x) for x in range(lo, hi, step))
+        if not good:
+            r.oracle_failure(case, f"returned {res}, Python's range({lo}, {hi}, {step}) has {n} items", f"func:{name}:wrong-value")
+            return "bad"
+        return "exact"
+    if op == "f_batchlen":
+        n, per = A[1], B[1]
+        if res.startswith("err:"):
+            if 1 <= per <= I64_MAX:
+                r.oracle_failure(case, f"error {res} for batch({per}) of {n} items", "func:batchlen:spurious-error")
+            return "err"
+        want = -(-n // per) if per >= 1 else None
+        if want is None or res != "i:%d" % want:
+            r.oracle_failure(case, f"returned {res}, ceil({n}/{per}) batches expected", "func:batchlen:wrong-value")
+            return "bad"
+        return "exact"
+    if op == "f_roundp":
+        if A[0] == "i":
+            if res.startswith("err:"):
+                if in_i128(A[1]):
+                    r.oracle_failure(case, f"error {res} rounding an integer", "func:roundp:spurious-error")
+                return "err"
+            if res != "i:%d" % A[1]:
+                r.oracle_failure(case, f"returned {res}, an integer rounds to itself", "func:roundp:wrong-value")
+                return "bad"
+            return "exact"
+        x = Fraction(A[1])
+        n = (abs(x) + Fraction(1, 2)).__floor__()
+        want = float(n) if A[1] >= 0 else -float(n)
+        if not same_float(res, want):
+            r.oracle_failure(case, f"returned {res}, expected {want!r}", "func:roundp:wrong-value")
+            return "bad"
+        return "exact"
+    if op in ("f_strint", "f_strfloat"):
+        t = A[1]
+        plain_int = re.fullmatch(r"[+-]?[0-9]+", t) is not None
+        try:
+            fl = float(t) if re.fullmatch(r"[+-]?([0-9]+\.?[0-9]*|\.[0-9]+)([eE][+-]?[0-9]+)?", t) else None
+        except ValueError:
+            fl = None
+        # a more lenient reading some parser might accept (surrounding blanks, `_`, radix prefixes):
+        # accepting it is not a wrong number
+        lenient_int = lenient_fl = None
+        tt = t.strip().replace("_", "")
+        try:
+            lenient_int = int(tt, 0) if not re.fullmatch(r"[+-]?0[0-9]+", tt) else int(tt)
+        except ValueError:
+            pass
+        try:
+            lenient_fl = float(tt) if tt.lower().lstrip("+-") not in ("nan", "inf", "infinity") else None
+        except ValueError:
+            pass
+        if op == "f_strfloat":
+            if res.startswith("err:"):
+                return "err"           # Rust's grammar is narrower than any oracle's: failing is allowed
+            if fl is None and lenient_fl is not None and same_float(res, lenient_fl):
+                return "lenient"
+            if fl is None or not same_float(res, fl):
+                r.oracle_failure(case, f"{t!r}|float returned {res}, correctly rounded value is {fl!r}", "func:strfloat:wrong-value")
+                return "bad"
+            return "exact"
+        # int filter on strings: exact integer text -> that integer; otherwise through f64 -> trunc
+        if res.startswith("err:"):
+            if plain_int and in_i128(int(t)):
+                r.oracle_failure(case, f"{t!r}|int fails although it is an integer that fits i128", "func:strint:spurious-error")
+            return "err"
+        if plain_int and in_i128(int(t)):
+            want = int(t)
+        elif fl is not None and fl == fl and abs(fl) != float("inf") and in_i128(int(fl)):
+            want = int(fl)
+        else:
+            want = None
+        if want is None and lenient_int is not None and in_i128(lenient_int) and res == "i:%d" % lenient_int:
+            return "lenient"
+        if want is None and lenient_fl is not None and abs(lenient_fl) != float("inf") and in_i128(int(lenient_fl)) \
+                and res == "i:%d" % int(lenient_fl):
+            return "lenient"
+        if want is None or res != "i:%d" % want:
+            what = "no integer of the signed 128-bit range (an error is required)" if want is None else str(want)
+            r.oracle_failure(case, f"{t!r}|int returned {res}, expected {what}", "func:strint:" + ("saturated" if want is None else "wrong-value"))
+            return "bad"
+        return "exact"
+    # f_fsize, f_trunc, f_indent: no arithmetic spec here; no panic, and (via the operand key) the
+    # same answer for every width / spelling of the same argument
+    return "err" if res.startswith("err:") else "consistent"
+
+
+
 
 
 def same_float(res, want):
@@ -259,7 +450,7 @@ def same_float(res, want):
 
 def check_filter(r, case, op, A, B, impl):
     """filters and tests must agree with the operators: exact, or an error where the operator may fail"""
-    res, _, rend = impl.partition("|render=")
+    res, rend = split_impl(impl)[0], split_impl(impl)[1].get("render", "")
     name = op[2:]
     if rend:
         r.oracle_failure(case, f"template prints {rend!r} but Expression::eval gives {res}", f"filter:{name}:render")
@@ -321,7 +512,10 @@ def check_filter(r, case, op, A, B, impl):
         elif op == "f_int":
             t = int(a)           # truncation, exact
             if not in_i128(t):
-                return "saturates"   # `as i128` saturates outside the type: not an operator, not judged
+                if not res.startswith("err:"):
+                    r.oracle_failure(case, f"returned {res} for a float outside the signed 128-bit range (trunc(x) = {t}): an error is required", "filter:int:saturated")
+                    return "bad"
+                return "err"
             return int_result(t, True, "trunc(x)")
         else:
             return "other"
@@ -389,9 +583,24 @@ def judge_core(case, impl):
     B = parse_operand(f[2]) if len(f) > 2 else None
     allint = A[0] == "i" and (B is None or B[0] == "i")
     key = None
-    if op in OPS_FILTER:
+    check_consistency(c, case, op, impl)
+    if op in OPS_MORE:
+        stream = "func"
+        out = check_more(c, case, op, A, B, impl)
+        if A[0] == "i" and (B is None or B[0] == "i"):
+            key = (op, A[1], B[1] if B else None)
+    elif op in OPS_FILTER:
         stream = "filter"
         out = check_filter(c, case, op, A, B, impl)
+    elif op == "neg" and A[0] == "f":
+        stream = "float-unary"
+        res = split_impl(impl)[0]
+        want = -A[1]
+        if not (res.startswith("f:") and struct.pack(">d", f_of_bits(res[2:])) == struct.pack(">d", want)):
+            c.oracle_failure(case, f"-x returned {res}, expected {want!r}", "float:neg:wrong-value")
+            out = "bad"
+        else:
+            out = "exact"
     elif op in OPS_CMP:
         stream = "cmp-int" if allint else "cmp-float"
         out = check_cmp(c, case, op, A, B, impl)
@@ -430,7 +639,7 @@ def judge(r, case, impl, width):
     for c, what, site in fails:
         r.oracle_failure(c, what, site)
     if key is not None:
-        res = impl.partition("|render=")[0]
+        res = split_impl(impl)[0]
         prev = width.setdefault(key, (res, case, impl))
         if prev[0] != res:
             # two spellings of the same operands disagree; attributable to the recorded defect only
@@ -440,6 +649,21 @@ def judge(r, case, impl, width):
             else:
                 r.oracle_failure(case, f"outcome {res} differs from {prev[0]} for the same mathematical operands written as `{prev[1]}`", f"int:{op}:width-dependent")
     return stream, op, out, key is not None
+
+
+EMBEDDINGS = ["set-variable", "macro-call", "namespace-augmented-assign", "for-loop-variable", "render_block via render_captured",
+              "custom-delimiters", "autoescape-html", "concat-with-empty-string", "strict-undefined+debug-off",
+              "loader-template via render_captured_to", "State::call_macro"]
+
+
+def embedding_of(case):
+    """which embedding the harness adds for this case (same FNV-1a hash as harness/src/bin/c08.rs)"""
+    h = 0xcbf29ce484222325
+    for f in case.split(" "):
+        for b in f.encode() + b" ":
+            h ^= b
+            h = (h * 0x100000001b3) & 0xFFFFFFFFFFFFFFFF
+    return EMBEDDINGS[(h // 4) % len(EMBEDDINGS)] if h % 4 == 0 else None
 
 
 def run(r):
@@ -453,8 +677,9 @@ def run(r):
               "serde-passed operands; abs/int/float/round/sum filters and odd/even/divisibleby tests against the operators; "
               "a case is non-trivial when it is distinct and the exact result is defined")
     r.assumptions = ["Rust's i128::checked_add/sub/mul/pow/div_euclid/rem_euclid return the exact result or None (std contract)",
-                     "float arithmetic and int/float comparison are judged by the exact rational oracle, not by a Lean theorem"]
-    r.regen_tables()
+                     "IEEE-754 binary64 +, -, /, fmod, trunc, round are the exact result rounded to nearest-even (the Lean float model encodes exactly that; validated bit-for-bit against the engine on every float case)",
+                     "f64::from_str is correctly rounded (float literal values and the float filter on strings are judged against Python's float())"]
+    r.regen_tables(needed=["C08_NEG_SPECIAL", "C08_INT_METHODS", "C08_LEX_RADIX"])
     r.lean_prove("MJ.Props.C08", "MJ/Audit/C08.lean", extra_targets=["drive_c08"])
     exe = r.cargo_build("c08")
     if exe is None:
@@ -491,6 +716,11 @@ def run(r):
         r.hist["op"][op] += 1
         r.hist["outcome"][stream + ":" + outcome] += 1
         r.hist["forms"][",".join(t.split(":")[0] for t in case.split(" ")[1:])] += 1
+        e = embedding_of(case)
+        if e:
+            r.hist["embedding"][e] += 1
+        if any(t.split(":")[0] in ("lit", "src", "flit", "fsrc") for t in case.split(" ")[1:]):
+            r.hist["entry"]["folded-vs-runtime compared"] += 1
         if model is not None:
             c2, m, lspec = model[i].split("\t")
             if lspec != py_spec(case) and len(r.broken) < 5:
